@@ -388,6 +388,9 @@ func c04Cases(tier string, seed int64) []blockCase {
 
 // c04EndToEnd sends blocks through a real node over loopback into a real downloader.
 func c04EndToEnd(ctx context.Context, run *common.Run, obs *c04obs, idx int) {
+	if run.Saturated() {
+		return
+	}
 	rng := common.Rng(run.Seed, int64(410000+idx))
 	repo := headers.NewRepository(headers.DefaultConfig(), common.NewMemStore())
 	repo.InitializeWithGenesis()
